@@ -139,12 +139,36 @@ def _(c):
 # ---------------------------------------------------------------------------
 # form / leave / bring-up
 # ---------------------------------------------------------------------------
+NetworkParametersT = T.record(
+    t.EmberNetworkParameters, frozen=False,
+    extendedPanId=T.opaque, panId=T.typed_int(t.EmberPanId), radioTxPower=T.typed_int(t.uint8_t),
+    radioChannel=T.typed_int(t.uint8_t), joinMethod=T.enum(t.EmberJoinMethod), nwkManagerId=T.typed_int(t.EmberNodeId),
+    nwkUpdateId=T.typed_int(t.uint8_t), channels=T.typed_int(t.uint32_t),
+)
+
+
 def _event_op(qualname, status, command, timeout_of, refused_exc):
-    @contract(qualname, props=["C17"])
+    @contract(qualname, props=["C17", "C14"] if command == "formNetwork" else ["C17"])
     def _(c):
         c.self(EZE)
         if command == "formNetwork":
-            c.arg("parameters", T.opaque)
+            c.arg("parameters", NetworkParametersT)
+            # C14 "writing network settings ... returns the same PAN ID, extended PAN ID, channel and channel mask,
+            # update ID": write_network_info hands these to formNetwork (its own contract); here: they reach the NCP
+            # command as given -- the very object, with every field as it was
+            c.ensures(
+                "post.parameters_reach_the_ncp_as_given",
+                lambda parameters, fx: [q[1] for q in commands_issued(fx)] == [{"parameters": parameters}]
+                and parameters.extendedPanId == old(parameters.extendedPanId)
+                and parameters.panId == old(parameters.panId)
+                and parameters.radioTxPower == old(parameters.radioTxPower)
+                and parameters.radioChannel == old(parameters.radioChannel)
+                and parameters.joinMethod == old(parameters.joinMethod)
+                and parameters.nwkManagerId == old(parameters.nwkManagerId)
+                and parameters.nwkUpdateId == old(parameters.nwkUpdateId)
+                and parameters.channels == old(parameters.channels),
+                on="any",
+            )
         else:
             c.arg("timeout", T.const(ezsp.NETWORK_OPS_TIMEOUT))
         c.raises("refused", refused_exc)
